@@ -217,6 +217,86 @@ theorem c19_retry_ingested (g : GS) (v : Vaa) (recover : Bytes → Option Addr) 
       unfold push
       simp [h2, hv, apply]
 
+/-! ### Every history of arrivals; the gate and `VerifySignatures` -/
+
+/-- **What the gate lets through, `VerifySignatures` accepts** (the call-site form of C06 for the explorer, clause
+`gate-accepts-invalid-signature-list` of the driver): `verifyVAA` returns nil only if the model of `VerifySignatures` — and by
+`C06.verify_iff` the C06 Spec — accepts the VAA's *whole* signature list against the very key list it was given, however many
+signatures beyond a quorum the list carries. -/
+theorem c19_gate_accepts_only_verifiable (recover : Bytes → Option Addr) (v : Vaa) (addrs : Option (List Addr))
+    (h : verifyVAA recover v addrs = none) :
+    ∃ keys, addrs = some keys ∧ verifySignatures recover v.sigs keys = true ∧ C06.Valid recover v.sigs keys := by
+  obtain ⟨keys, hk, _, _, hv⟩ := c19_verify_sound recover v addrs h
+  exact ⟨keys, hk, (C06.verify_iff _ _ _).2 hv, hv⟩
+
+/-- One gossiped VAA together with its surroundings at the moment it arrives: the ecrecover oracle for its digest, whether the
+chain can be dialled and what it answers, what the dedup cache answers for the VAA's message id (`hit` — an arbitrary function
+of the cache's history: marked, never marked because the hand-off failed, expired, evicted), and whether the queue has room. -/
+structure Arrival where
+  v : Vaa
+  recover : Bytes → Option Addr
+  dial : Bool
+  chain : Chain
+  hit : Bool
+  room : Bool
+
+/-- `Push` for one arrival. -/
+def arrive (g : GS) (a : Arrival) : PushOut := push g a.v a.recover a.dial a.chain a.hit a.room
+
+/-- The guardian-set state after a history of arrivals (the only state `Push` carries from one VAA to the next). -/
+def stateAfter (g : GS) : List Arrival → GS
+  | [] => g
+  | a :: l => stateAfter (arrive g a).st l
+
+private theorem push_st (g : GS) (v : Vaa) (recover : Bytes → Option Addr) (dial : Bool) (chain : Chain) (hit room : Bool) :
+    (push g v recover dial chain hit room).st = (getGuardianSet g (v.gsIndex : Int) dial chain).st := by
+  unfold push
+  cases hr : (getGuardianSet g (v.gsIndex : Int) dial chain).res with
+  | err => simp [hr]
+  | panic => simp [hr]
+  | ok s => simp only [hr]; cases verifyVAA recover v s.keys <;> simp
+
+private theorem stateAfter_inv (hist : List Arrival) : ∀ (g : GS), Inv g.cur g.list →
+    (∀ x ∈ hist, x.v.gsIndex < two32) → Inv (stateAfter g hist).cur (stateAfter g hist).list := by
+  induction hist with
+  | nil => intro g h _; exact h
+  | cons a l ih =>
+    intro g hinv hidx
+    have ha : a.v.gsIndex < two32 := hidx a (by simp)
+    have hget := c19_get_returns_named g (a.v.gsIndex : Int) a.dial a.chain hinv (by omega) (by omega) _ rfl
+    simp only [stateAfter]
+    apply ih
+    · unfold arrive; rw [push_st]; exact hget.1
+    · intro x hx; exact hidx x (by simp [hx])
+
+/-- **Queued ⇒ verified, after every history.** Whatever VAAs arrived before — genuine ones with the same message id that
+were verified and queued, or verified and *not* marked because the queue was full, or whose dedup entry has expired since;
+forged ones; in any order, with any cache answers and any chain behaviour — a VAA that `Push` puts on the queue carries valid
+signatures of a quorum of the set whose index it names. Verification is never inherited from an earlier VAA. -/
+theorem c19_history_queued_verified (g : GS) (hinv : Inv g.cur g.list) (hist : List Arrival) (a : Arrival)
+    (hidx : ∀ x ∈ hist, x.v.gsIndex < two32) (ha : a.v.gsIndex < two32)
+    (hq : (arrive (stateAfter g hist) a).enq = true) :
+    ∃ s keys, (getGuardianSet (stateAfter g hist) (a.v.gsIndex : Int) a.dial a.chain).res = .ok s ∧ s.index = a.v.gsIndex ∧
+      s.keys = some keys ∧ a.v.sigs ≠ [] ∧ quorum keys.length ≤ a.v.sigs.length ∧ C06.Valid a.recover a.v.sigs keys :=
+  c19_queued_verified (stateAfter g hist) a.v a.recover a.dial a.chain a.hit a.room (stateAfter_inv hist g hinv hidx) ha hq
+
+/-- … in particular **a forged copy is not queued**: a VAA that is unsigned, or short of a quorum of the set it names, or whose
+signature list `VerifySignatures` rejects against that set, is not queued after any history — also not directly after a genuine
+VAA with the same message id whose hand-off failed. -/
+theorem c19_unverified_never_queued (g : GS) (hinv : Inv g.cur g.list) (hist : List Arrival) (a : Arrival)
+    (hidx : ∀ x ∈ hist, x.v.gsIndex < two32) (ha : a.v.gsIndex < two32)
+    (hbad : ∀ s keys, (getGuardianSet (stateAfter g hist) (a.v.gsIndex : Int) a.dial a.chain).res = .ok s → s.keys = some keys →
+      a.v.sigs = [] ∨ a.v.sigs.length < quorum keys.length ∨ verifySignatures a.recover a.v.sigs keys = false) :
+    (arrive (stateAfter g hist) a).enq = false := by
+  cases hq : (arrive (stateAfter g hist) a).enq with
+  | false => rfl
+  | true =>
+    obtain ⟨s, keys, hr, _, hk, h1, h2, h3⟩ := c19_history_queued_verified g hinv hist a hidx ha hq
+    rcases hbad s keys hr hk with h | h | h
+    · exact absurd h h1
+    · omega
+    · rw [(C06.verify_iff _ _ _).2 h3] at h; cases h
+
 /-! ### Non-vacuity: a concrete run -/
 
 def kA : Addr := [0xA]
@@ -242,6 +322,20 @@ example : (push demoG { demoV with gsIndex := 0 } demoRec true demoChain false t
 -- queue full: not stored; pushed again with room: queued
 example : (push demoG demoV demoRec true demoChain false false).res = .full := by decide
 example : (push (push demoG demoV demoRec true demoChain false false).st demoV demoRec false demoChain false true).res = .queued := by decide
+
+-- the gate: all three signatures verify against set 1; with a fourth, surplus signature that repeats index 2 it is rejected
+example : verifyVAA demoRec demoV (some [kA, kB, kC]) = none := by decide
+example : verifyVAA demoRec { demoV with sigs := demoV.sigs ++ [⟨2, [3]⟩] } (some [kA, kB, kC]) = some .badSignatures := by decide
+/-- the genuine VAA arrives while the queue is full: verified, hand-off fails, not marked -/
+def demoGenuineFull : Arrival := ⟨demoV, demoRec, true, demoChain, false, false⟩
+/-- a forged copy (same emitter / sequence, another payload, no valid signature for its digest) arrives with room in the queue -/
+def demoForged : Arrival := ⟨{ demoV with body := { demoBody with payload := [9] } }, fun _ => none, true, demoChain, false, true⟩
+example : (arrive demoG demoGenuineFull).res = .full := by decide
+example : ∀ x ∈ [demoGenuineFull], x.v.gsIndex < two32 := by decide
+example : (arrive (stateAfter demoG [demoGenuineFull]) demoForged).res = .invalid .badSignatures := by decide
+example : (arrive (stateAfter demoG [demoGenuineFull]) demoForged).enq = false := by decide
+-- and the genuine one, pushed again after the forged copy, is queued
+example : (arrive (stateAfter demoG [demoGenuineFull, demoForged]) { demoGenuineFull with room := true }).enq = true := by decide
 
 /-! ## Concurrent lookups while sets are appended (fine-grained model `Whv.Explorer.Fine`) -/
 section Interleaving
